@@ -95,16 +95,22 @@ def runEvs (val : Str → Bool) (cur e : Str) : List EvBlock → List Cb × Opti
         (tr ++ r.1, r.2)
     else runEvs val cur e rest
 
-def runFn (fn : StateFn) (val : Str → Bool) (cur e : Str) : Str × List Cb :=
+/-- a state function / state class: the event blocks, then `fallback` when nothing returned
+    (Python: print + `NoTransition`; C#: the method simply ends) -/
+def runFnWith (fallback : List Cb) (fn : StateFn) (val : Str → Bool) (cur e : Str) : Str × List Cb :=
   match runEvs val cur e fn.evs with
   | (tr, some s) => (s, tr)
-  | (tr, none) => (cur, tr ++ [Cb.noTransition])
+  | (tr, none) => (cur, tr ++ fallback)
 
-/-- `process(event)`: the first state function whose state is the current one -/
-def process (p : Prog) (cur e : Str) (val : Str → Bool) : Str × List Cb :=
+/-- dispatch on the current state: the first state function / class whose state it is -/
+def processWith (fallback : List Cb) (p : Prog) (cur e : Str) (val : Str → Bool) : Str × List Cb :=
   match p.fns.find? (fun fn => fn.state == cur) with
-  | some fn => runFn fn val cur e
+  | some fn => runFnWith fallback fn val cur e
   | none => (cur, [])
+
+/-- Python `process(event)` -/
+def process (p : Prog) (cur e : Str) (val : Str → Bool) : Str × List Cb :=
+  processWith [Cb.noTransition] p cur e val
 
 /-- the constructor: entry callback of STATE_0, then that state -/
 def construct (p : Prog) : Option (Str × List Cb) := p.init.map (fun s => (s, [Cb.entry s]))
